@@ -337,6 +337,8 @@ impl Ctx {
 
         let mut cov = Map::new();
         cov.insert("evaluations".into(), json!(evals));
+        cov.insert("ambient_environment_of_cli_runs".into(), crate::cli::ambient_stats());
+        crate::cli::remove_ambient_files();
         cov.insert("distinct_nontrivial".into(), json!(g.distinct.len()));
         cov.insert("rule".into(), json!(g.rule));
         let mut samples = g.samples.clone();
